@@ -83,6 +83,29 @@ def specials():
     # last item equal to (all synthetic objects compare equal) but not identical with next_inner: replace, not insert
     out.append(dict(base, root=["O", 0], unwrap={"0": ["seq", [["F", 0], ["O", 1], ["F", 1]], "tuple"]},
                     elab={"0": ["seq", [["I", ["F", 2]], ["I", ["O", 2]]], False]}))
+    # hook rows installed through customize(): every flag combination x {no elaborate=, None, PRUNE/()/[], replace,
+    # insert, single item, raise} on a frame that has a callee and a leaf behind it
+    f4 = dict(base, nf=4, no=2, frames={str(i): ["plain"] for i in range(4)}, root=["O", 0],
+              unwrap={"0": ["seq", [["F", 0], ["F", 1], ["O", 1]], "tuple"], "1": ["none"]})
+    rows = [["none", None, True], ["one", ["Z"], False], ["seq", [], False, "tuple"], ["seq", [], True, "list"],
+            ["seq", [["I", ["F", 2]]], False], ["seq", [["I", ["F", 2]], ["N"]], True], ["one", ["I", ["F", 3]], False],
+            ["raise", None, True], ["seq", [["N"]], False], ["one", ["N"], False]]
+    k = 0
+    for row in rows:
+        for hide in (False, True):
+            for hl in (False, True):
+                for prune in (False, True):
+                    if row[0] == "one" and row[1][0] == "N" and prune:
+                        continue
+                    k += 1
+                    out.append(dict(f4, elab={"0": row}, cust={"0": {"hide": hide, "hide_line": hl, "prune": prune,
+                                                                     "form": "decorator" if k % 2 else "target"}}))
+    # the bare next_inner / (next_inner,) / [next_inner] is the same as None: everything inward stays
+    for row in (["one", ["N"], False], ["seq", [["N"]], False, "tuple"], ["seq", [["N"]], True, "list"]):
+        out.append(dict(f4, elab={"0": row}))
+        out.append(dict(f4, elab={"1": row}))
+        out.append(dict(f4, unwrap={"0": ["seq", [["F", 0], ["O", 1]], "tuple"], "1": ["seq", [["F", 1], ["F", 2], ["F", 3]], "list"]},
+                        elab={"0": row, "1": row}))
     # a @yields_frames iterator may yield None (an absent link) at any position: skipped like a None entry of a
     # returned sequence, everything after it is kept; also when the iterator raises afterwards
     f3 = dict(base, nf=3, no=3, frames={str(i): ["plain"] for i in range(3)}, root=["O", 0], elab={})
@@ -145,14 +168,33 @@ def exhaustive_samecode(no=3, stride=1, offset=0):
                "attr": {}, "ctxs": {}, "fill": {}, "faults": [], "with_ctx": False, "root": ["O", 0], "mode": "extract"}
 
 
+def exhaustive_customize(stride=1, offset=0):
+    """2 objects x 2 frames, frame 0's row installed through customize() with all 8 flag combinations."""
+    us = [ALPH_U(o, 2, 2, True) for o in range(2)]
+    rows0 = ALPH_E(0, 2, 2) + [["one", ["Z"], False], ["one", ["N"], False]]
+    n = 0
+    for combo in itertools.product(*us, rows0, ALPH_E(1, 2, 2)):
+        for flags in itertools.product((False, True), repeat=3):
+            if combo[2][0] == "one" and combo[2][1][0] == "N" and flags[2]:
+                continue
+            n += 1
+            if (n + offset) % stride:
+                continue
+            yield {"nf": 2, "no": 2, "frames": {"0": ["plain"], "1": ["plain"]},
+                   "unwrap": {"0": combo[0], "1": combo[1]}, "elab": {"0": combo[2], "1": combo[3]},
+                   "cust": {"0": {"hide": flags[0], "hide_line": flags[1], "prune": flags[2],
+                                  "form": "decorator" if n % 2 else "target"}},
+                   "attr": {}, "ctxs": {}, "fill": {}, "faults": [], "with_ctx": False, "root": ["O", 0], "mode": "extract"}
+
+
 def make_inputs(tier, seed):
     rng = random.Random(seed * 7919 + 10)
     yield from specials()
     n = 1500 if tier == "quick" else 12000
     for _ in range(n):
-        yield G.gen_case(rng, nf=5, no=5, iter_none=True)
+        yield G.gen_case(rng, nf=5, no=5, iter_none=True, customize=True)
     for _ in range(n // 5):
-        yield G.gen_case(rng, nf=3, no=8, iter_none=True)
+        yield G.gen_case(rng, nf=3, no=8, iter_none=True, customize=True)
     rng2 = random.Random(seed * 7919 + 11)
     for _ in range(n):
         yield G.gen_dense(rng2, nf=rng2.choice([5, 7]), no=rng2.choice([3, 4]))
@@ -160,7 +202,7 @@ def make_inputs(tier, seed):
     rng3 = random.Random(seed * 7919 + 12)
     made = 0
     while made < n // 5:
-        d = G.gen_case(rng3, nf=5, no=5, gens=True, weird=False, gen2=True, iter_none=True)
+        d = G.gen_case(rng3, nf=5, no=5, gens=True, weird=False, gen2=True, iter_none=True, customize=True)
         if G.acyclic(d):
             made += 1
             yield d
@@ -171,12 +213,33 @@ def make_inputs(tier, seed):
     if tier == "thorough":
         yield from exhaustive(3, 2, iter_none=True)
         yield from exhaustive_samecode(3)
+        yield from exhaustive_customize()
     else:
         yield from exhaustive(3, 2, stride=97, offset=seed, iter_none=True)
         yield from exhaustive_samecode(3, stride=11, offset=seed)
+        yield from exhaustive_customize(stride=19, offset=seed)
 
 
-run_case = G.run_impl
+class Hang(BaseException):
+    """not an Exception: extract_iter's `except Exception` guards must not swallow it"""
+
+
+def run_case(desc):
+    """One implementation run under a per-case watchdog: an input on which extract() does not terminate (it
+    has no fuel) is reported for THAT input and the remaining cases are still compared."""
+    import signal
+
+    def on_alarm(signum, frame):
+        raise Hang()
+    old = signal.signal(signal.SIGALRM, on_alarm)
+    signal.setitimer(signal.ITIMER_REAL, 3.0)
+    try:
+        return G.run_impl(desc)
+    except Hang:
+        return {"kind": "raised", "exc": "HANG: extract() did not return within 3 s on this input"}
+    finally:
+        signal.setitimer(signal.ITIMER_REAL, 0)
+        signal.signal(signal.SIGALRM, old)
 
 
 def ranked_below(desc):
@@ -221,12 +284,20 @@ def coq_case(desc, obs):
 def direct_oracle(desc, obs):
     if obs.get("kind") == "raised":
         return "extract() raised: " + obs.get("exc", "")
+    # Frame.hide_line (not part of the model): set exactly on frames customize()d with hide_line=True
+    cust = desc.get("cust", {})
+    for fr in obs.get("frames", []):
+        if fr["f"] < desc["nf"]:
+            want = bool(cust.get(str(G.code_rep(desc, fr["f"])), {}).get("hide_line", False))
+            if fr.get("hide_line", False) != want:
+                return "frame %d: hide_line is %r, customize() asked for %r" % (fr["f"], fr.get("hide_line"), want)
     return None
 
 
 def classify(desc, obs):
     labs = ["ranked" if ranked_below(desc) else "not-ranked",
-            "shared-code" if any(v[0] == "samecode" for v in desc["frames"].values()) else "own-code"]
+            "shared-code" if any(v[0] == "samecode" for v in desc["frames"].values()) else "own-code",
+            "customize()" if desc.get("cust") else "register()"]
     labs += ["elab:" + ",".join(sorted({v[0] for v in desc["elab"].values()})) if desc["nf"] <= 2 else "random"]
     if obs.get("kind") == "ok":
         labs.append("errs=%d" % min(len(obs["errs"]), 3))
